@@ -144,7 +144,7 @@ fn ots_public<H: HashChain, const YLEN: usize>(w: LmotsAlgorithm, wbits: usize, 
     let f = q(p);
     assert!(f.kind == 0 && f.len == 22 + p * n, "final pre-image length 22 + p n");
     assert!(eq(&f.head[..16], &i) && eq(&f.head[16..20], &leaf.to_be_bytes()) && f.head[20] == 0x80 && f.head[21] == 0x80, "I | q | D_PBLC");
-    assert!(eq(&f.fp, &rec_fp(&[&i, &leaf.to_be_bytes(), &[0x80, 0x80], &ys[..p * n]])), "followed by y_0 .. y_{p-1} in order");
+    assert!(eq(&f.fp, &rec_fp(&[&i, &leaf.to_be_bytes(), &[0x80, 0x80], &ys[..p * n]])), "followed by y_0 .. y_(p-1) in order");
     assert!(eq(pk.key.as_slice(), &tape(p)[..n]), "K is that digest");
     kani::cover!(true, "reached");
 }
@@ -226,7 +226,7 @@ fn ots_sign_and_candidate<H: HashChain, const YLEN: usize>(w: LmotsAlgorithm, wb
     }
     let f = q(p + 1);
     assert!(f.kind == 0 && f.len == 22 + p * n && eq(&f.head[..16], &i) && eq(&f.head[16..20], &leaf.to_be_bytes()) && f.head[20] == 0x80 && f.head[21] == 0x80, "Kc pre-image: I | q | D_PBLC | z");
-    assert!(eq(&f.fp, &rec_fp(&[&i, &leaf.to_be_bytes(), &[0x80, 0x80], &zs[..p * n]])), "z_0 .. z_{p-1} in order");
+    assert!(eq(&f.fp, &rec_fp(&[&i, &leaf.to_be_bytes(), &[0x80, 0x80], &zs[..p * n]])), "z_0 .. z_(p-1) in order");
     assert!(eq(cand.as_slice(), &tape(p + 1)[..n]), "candidate is that digest");
     kani::cover!(mlen == 5, "longest message");
 }
